@@ -288,28 +288,29 @@ Lemma lex_regex_span : forall src l t l',
   tok_post src l t l' /\ ttag t = TRegex /\
   nth_error src (lpos l' - 1) = Some 47%N /\
   (forall j, lpos l <= j < lpos l' - 1 -> nth_error src j <> Some 47%N) /\
-  (lpos l = S (lstart l) -> S (tpos t + tlen t) = lpos l' /\ tpos t = lpos l).
+  (lpos l = S (lstart l) -> S (tpos t + tlen t) = lpos l' /\ tpos t = lpos l) /\
+  tpos t = S (lstart l).
 Proof.
   intros src l t l' Hinv H. unfold lex_regex in H.
   destruct (scan_to 47%N (lrest l)) as [[n rest]|] eqn:E; [|discriminate].
   destruct (scan_tok_span src 47%N l n rest TRegex Hinv E) as (A & B & C & D).
   inversion H; subst; clear H. simpl.
   replace (lpos l + n + 1 - 1) with (lpos l + n) by lia.
-  split; [exact A|split; [reflexivity|split; [exact B|split; [exact C|]]]].
+  split; [exact A|split; [reflexivity|split; [exact B|split; [exact C|split; [|reflexivity]]]]].
   intros E1. destruct (D E1) as [D1 D2]. simpl in *. lia.
 Qed.
 
-(* unterminated string: located one byte after the opening quote, i.e. inside the literal *)
+(* unterminated string: located at tokenStart, which is the offset of the opening quote *)
 Lemma lex_string_err : forall src q l p l',
   lex_inv src l -> lex_string q l = LexErr p l' ->
-  p = S (lstart l) /\ (forall j, lpos l <= j -> nth_error src j <> Some q) /\
+  p = lstart l /\ (forall j, lpos l <= j -> nth_error src j <> Some q) /\
   lex_inv src l' /\ lpos l' = length src /\ lstart l' = lstart l.
 Proof.
   intros src q l p l' Hinv H. unfold lex_string in H.
   destruct (scan_to q (lrest l)) as [[n rest]|] eqn:E; [discriminate|].
   destruct (scan_none_inv src q l Hinv E) as (A & B & C).
   inversion H; subst; clear H. simpl.
-  split; [lia|split; [exact A|split; [exact B|split; [exact C|reflexivity]]]].
+  split; [reflexivity|split; [exact A|split; [exact B|split; [exact C|reflexivity]]]].
 Qed.
 
 (* unterminated regex: located at tokenStart, which is the offset of the opening '/' *)
@@ -362,14 +363,32 @@ Proof.
   vm_compute in H. repeat (destruct H as [H|H]; [discriminate H|]). exact H.
 Qed.
 
-Lemma lex_identifier_not_divide : forall pre l t l',
-  lex_identifier pre l = (t, l') -> ttag t <> TDivide.
+Lemma keyword_not_eof : forall s, lookup_kw keyword_table s <> Some TEOF.
+Proof.
+  intros s H. apply lookup_kw_in in H.
+  vm_compute in H. repeat (destruct H as [H|H]; [discriminate H|]). exact H.
+Qed.
+
+Lemma op1_not_eof : forall c, lookup_op1 op1_table c <> Some TEOF.
+Proof.
+  intros c H. apply lookup_op1_in in H. unfold op1_table in H. simpl in H.
+  repeat (destruct H as [H|H]; [discriminate H|]). contradiction.
+Qed.
+
+Lemma op2_not_eof : forall c d, lookup_op2 op2_table c d <> Some TEOF.
+Proof.
+  intros c d H. apply lookup_op2_in in H. unfold op2_table in H. simpl in H.
+  repeat (destruct H as [H|H]; [discriminate H|]). contradiction.
+Qed.
+
+Lemma lex_identifier_tag : forall pre l t l',
+  lex_identifier pre l = (t, l') -> ttag t <> TDivide /\ ttag t <> TEOF.
 Proof.
   intros pre l t l' H. unfold lex_identifier in H.
   destruct (take_while ident_char (lrest l)) as [run rest].
   destruct (lookup_kw keyword_table (pre ++ run)) as [kw|] eqn:E; inversion H; subst; simpl.
-  - intros ->. exact (keyword_not_divide _ E).
-  - discriminate.
+  - split; intros ->; [exact (keyword_not_divide _ E)|exact (keyword_not_eof _ E)].
+  - split; discriminate.
 Qed.
 
 Lemma quote_chars_eq : forall c, existsb (N.eqb c) quote_chars = (N.eqb c 39 || N.eqb c 34)%bool.
@@ -380,20 +399,21 @@ Definition next_tok_post (src : bytes) (l : lexer) (t : token) (l' : lexer) : Pr
   tok_post src l t l' /\
   (forall j, lpos l <= j < tpos t -> nth_error src j <> Some 10%N) /\
   (ttag t <> TEOF -> lpos l <= tpos t /\ lpos l < lpos l' /\ tpos t < lpos l') /\
-  (ttag t = TDivide -> lpos l' = S (lstart l') /\ nth_error src (lstart l') = Some 47%N).
+  (ttag t = TDivide -> lpos l' = S (lstart l') /\ nth_error src (lstart l') = Some 47%N) /\
+  (ttag t = TEOF -> tpos t = length src /\ lpos l' = length src).
 
-(* ... and for an error: either an unexpected byte, reported exactly on it, or an
-   unterminated string literal, reported one byte after its opening quote *)
+(* ... and for an error: the offset p is that of a byte c of the text, no newline was skipped
+   on the way, tokenStart = p; c is either an unexpected byte (the lexer stands just after
+   it) or the opening quote of a string literal that is never closed (the lexer stands at
+   the end of the text) *)
 Definition next_err_post (src : bytes) (l : lexer) (p : nat) (l' : lexer) : Prop :=
-  lex_inv src l' /\ p <= length src /\
-  ((lstart l' = p /\ lpos l' = S p /\ lpos l <= p /\
-    (forall j, lpos l <= j < p -> nth_error src j <> Some 10%N) /\
-    exists c, nth_error src p = Some c /\ unexpected_byte c (nth_error src (S p)))
-   \/
-   (p = S (lstart l') /\ lpos l <= lstart l' /\ lpos l' = length src /\
-    (forall j, lpos l <= j < lstart l' -> nth_error src j <> Some 10%N) /\
-    exists q, (q = 39%N \/ q = 34%N) /\ nth_error src (lstart l') = Some q /\
-              (forall j, p <= j -> nth_error src j <> Some q))).
+  lex_inv src l' /\ p < length src /\ lstart l' = p /\ lpos l <= p /\
+  (forall j, lpos l <= j < p -> nth_error src j <> Some 10%N) /\
+  exists c, nth_error src p = Some c /\ c <> 10%N /\
+    ((c <> 39%N /\ c <> 34%N /\ unexpected_byte c (nth_error src (S p)) /\ lpos l' = S p)
+     \/
+     ((c = 39%N \/ c = 34%N) /\ lpos l' = length src /\
+      (forall j, p < j -> nth_error src j <> Some c))).
 
 Lemma lex_next_setup : forall src l s pos,
   lex_inv src l -> skip_ws (lrest l) (lpos l) = (s, pos) ->
@@ -410,6 +430,23 @@ Proof.
   apply nth_error_In in Hq. rewrite Forall_forall in C. apply (C _ Hq). reflexivity.
 Qed.
 
+Lemma unexpected_intro : forall c next,
+  blank_start c = false -> N.eqb c 10 = false -> N.eqb c 36 = false ->
+  latin1_is_digit c = false -> (latin1_is_letter c || N.eqb c 95)%bool = false ->
+  (N.eqb c 39 || N.eqb c 34)%bool = false -> lookup_op1 op1_table c = None ->
+  (forall d, next = Some d -> lookup_op2 op2_table c d = None) ->
+  c <> 39%N /\ c <> 34%N /\ unexpected_byte c next.
+Proof.
+  intros c next Hb E10 E36 Edig Elet Eq E1 E2. unfold blank_start in Hb.
+  apply orb_false_iff in Hb. destruct Hb as [Hb Hb4].
+  apply orb_false_iff in Hb. destruct Hb as [Hb Hb3].
+  apply orb_false_iff in Hb. destruct Hb as [Hb1 Hb2].
+  apply orb_false_iff in Elet. destruct Elet as [El1 El2].
+  apply orb_false_iff in Eq. destruct Eq as [Eq1 Eq2].
+  repeat match goal with H : N.eqb _ _ = false |- _ => apply N.eqb_neq in H end.
+  unfold unexpected_byte. repeat split; auto.
+Qed.
+
 Lemma lex_next_spec : forall src l, lex_inv src l ->
   match lex_next l with
   | LexTok t l' => next_tok_post src l t l'
@@ -421,10 +458,13 @@ Proof.
   destruct (lex_next_setup src l s pos Hinv Ews) as (Hs & Hpos & Hle & Hblank & Hnonl).
   destruct Hinv as (Hr & Hp & Hst).
   destruct s as [|c s'].
-  - (* EOF *)
-    unfold next_tok_post. split; [|split; [|split; [simpl; congruence|simpl; discriminate]]].
-    + apply tok_post_intro; simpl; try lia. unfold lex_inv. simpl. split; [now symmetry|split; lia].
-    + simpl. intros j Hj. apply Hnonl. lia.
+  - (* EOF: the token sits at the end of the text *)
+    assert (Hend : pos = length src).
+    { assert (length (skipn pos src) = 0) by (rewrite Hs; reflexivity).
+      rewrite skipn_length in H. lia. }
+    unfold next_tok_post. cbn [simple ttag tpos tlen lpos lstart].
+    split; [|split; [exact Hnonl|split; [congruence|split; [discriminate|auto]]]].
+    apply tok_post_intro; simpl; try lia. unfold lex_inv. simpl. split; [now symmetry|split; lia].
   - rewrite quote_chars_eq.
     destruct (skipn_cons_inv _ _ _ _ Hs) as (Hc & Hs' & Hlt).
     assert (Hb := Hblank c s' eq_refl).
@@ -434,25 +474,39 @@ Proof.
     { unfold lex_inv. simpl. split; [now symmetry|split; lia]. }
     destruct (N.eqb c 10) eqn:E10.
     { (* newline *)
-      unfold next_tok_post. simpl. split; [|split; [exact Hnonl|split; [intros _; lia|discriminate]]].
+      unfold next_tok_post. cbn [simple ttag tpos tlen lpos lstart].
+      split; [|split; [exact Hnonl|split; [intros _; lia|split; [discriminate|discriminate]]]].
       apply tok_post_intro; simpl; auto; lia. }
+    assert (Hc10 : c <> 10%N) by (now apply N.eqb_neq).
+    (* every other token starts at pos, on the byte c *)
+    assert (Hat : forall t l', tok_post src l t l' -> tpos t = pos -> pos < lpos l' ->
+              ttag t <> TEOF -> (ttag t = TDivide -> lpos l' = S pos /\ c = 47%N) ->
+              next_tok_post src l t l').
+    { intros t l' Hp0 Ht Hl' Hne Hd. unfold next_tok_post.
+      assert (A4 : tpos t = lstart l') by apply Hp0.
+      split; [exact Hp0|split; [|split; [|split]]].
+      - intros j Hj. apply Hnonl. lia.
+      - intros _. lia.
+      - intros E. destruct (Hd E) as [D1 D2]. rewrite <- A4, Ht. split; [exact D1|now rewrite <- D2].
+      - intros E. contradiction. }
     destruct (N.eqb c 36) eqn:E36.
-    { (* $identifier *)
-      destruct (lex_identifier [36%N] (mkLexer s' (S pos) pos)) as [t l'] eqn:Eid.
+    { destruct (lex_identifier [36%N] (mkLexer s' (S pos) pos)) as [t l'] eqn:Eid.
       destruct (lex_identifier_span src _ _ _ _ Hinv1 Eid) as (A & B & C & D).
-      assert (Hnd := lex_identifier_not_divide _ _ _ _ Eid).
-      destruct A as (A1 & A2 & A3 & A4 & A5 & A6). cbn [lpos lstart lrest] in *.
-      unfold next_tok_post, tok_post.
-      split; [split; [exact A1|split; [exact A2|split; [exact A3|split; [exact A4|split; lia]]]]|split; [intros j Hj; apply Hnonl; lia|split; [intros _; lia|intros Hd; contradiction]]]. }
+      destruct (lex_identifier_tag _ _ _ _ Eid) as [Hnd Hne].
+      assert (A' : tok_post src l t l').
+      { destruct A as (A1 & A2 & A3 & A4 & A5 & A6). cbn [lpos] in A6.
+        split; [exact A1|split; [exact A2|split; [exact A3|split; [exact A4|split; [exact A5|lia]]]]]. }
+      destruct A as (A1 & A2 & A3 & A4 & A5 & A6). cbn [lpos lstart] in *.
+      apply Hat; [exact A'|lia|lia|exact Hne|intros E; contradiction]. }
     destruct (latin1_is_digit c) eqn:Edig.
     { destruct (lex_number (mkLexer (c :: s') pos pos)) as [t l'] eqn:Enum.
       destruct (lex_number_span src _ _ _ Hinv0 Enum) as (A & B & C & D).
-      destruct A as (A1 & A2 & A3 & A4 & A5 & A6). cbn [lpos lstart lrest] in *.
-      unfold next_tok_post, tok_post.
-      split; [split; [exact A1|split; [exact A2|split; [exact A3|split; [exact A4|split; lia]]]]|split; [intros j Hj; apply Hnonl; lia|split; [|rewrite C; discriminate]]].
-      intros _. split; [lia|].
+      assert (A' : tok_post src l t l').
+      { destruct A as (A1 & A2 & A3 & A4 & A5 & A6). cbn [lpos] in A6.
+        split; [exact A1|split; [exact A2|split; [exact A3|split; [exact A4|split; [exact A5|lia]]]]]. }
+      destruct A as (A1 & A2 & A3 & A4 & A5 & A6). cbn [lpos lstart] in *.
+      apply Hat; [exact A'|lia| |rewrite C; discriminate|rewrite C; discriminate].
       (* the number consumed at least its first digit *)
-      assert (pos < lpos l'); [|lia].
       unfold lex_number in Enum. simpl in Enum. rewrite Edig in Enum.
       destruct (take_while latin1_is_digit s') as [d1 r1].
       destruct r1 as [|x [|x2 r2]]; try (inversion Enum; subst; simpl; lia).
@@ -462,12 +516,12 @@ Proof.
     destruct (latin1_is_letter c || N.eqb c 95)%bool eqn:Elet.
     { destruct (lex_identifier [] (mkLexer (c :: s') pos pos)) as [t l'] eqn:Eid.
       destruct (lex_identifier_span src _ _ _ _ Hinv0 Eid) as (A & B & C & D).
-      assert (Hnd := lex_identifier_not_divide _ _ _ _ Eid).
-      destruct A as (A1 & A2 & A3 & A4 & A5 & A6). cbn [lpos lstart lrest] in *.
-      unfold next_tok_post, tok_post.
-      split; [split; [exact A1|split; [exact A2|split; [exact A3|split; [exact A4|split; lia]]]]|split; [intros j Hj; apply Hnonl; lia|split; [|intros Hd; contradiction]]].
-      intros _. split; [lia|].
-      assert (pos < lpos l'); [|lia].
+      destruct (lex_identifier_tag _ _ _ _ Eid) as [Hnd Hne].
+      assert (A' : tok_post src l t l').
+      { destruct A as (A1 & A2 & A3 & A4 & A5 & A6). cbn [lpos] in A6.
+        split; [exact A1|split; [exact A2|split; [exact A3|split; [exact A4|split; [exact A5|lia]]]]]. }
+      destruct A as (A1 & A2 & A3 & A4 & A5 & A6). cbn [lpos lstart] in *.
+      apply Hat; [exact A'|lia| |exact Hne|intros E; contradiction].
       unfold lex_identifier in Eid. cbn [lrest lpos lstart take_while] in Eid.
       assert (Eic : ident_char c = true).
       { unfold ident_char. apply orb_true_iff in Elet. destruct Elet as [E|E]; rewrite E; simpl;
@@ -476,76 +530,64 @@ Proof.
       destruct (lookup_kw keyword_table _); inversion Eid; subst l'; cbn [lpos length]; lia. }
     (* operators, strings, errors *)
     assert (Hsimple : forall tg n s2, S pos <= n -> lex_inv src (mkLexer s2 n pos) ->
-              (tg = TDivide -> n = S pos /\ c = 47%N) ->
+              tg <> TEOF -> (tg = TDivide -> n = S pos /\ c = 47%N) ->
               next_tok_post src l (simple tg pos) (mkLexer s2 n pos)).
-    { intros tg n s2 Hn Hi Hd. unfold next_tok_post. simpl.
-      split; [apply tok_post_intro; simpl; auto; lia|].
-      split; [exact Hnonl|split; [intros _; lia|]].
-      intros E. destruct (Hd E) as [-> ->]. split; [reflexivity|exact Hc]. }
+    { intros tg n s2 Hn Hi Hne Hd.
+      apply Hat; [apply tok_post_intro; simpl; auto; lia|reflexivity|simpl; lia|exact Hne|exact Hd]. }
+    assert (Herr : forall l', l' = mkLexer s' (S pos) pos ->
+              (N.eqb c 39 || N.eqb c 34)%bool = false -> lookup_op1 op1_table c = None ->
+              (forall d, nth_error src (S pos) = Some d -> lookup_op2 op2_table c d = None) ->
+              next_err_post src l pos l').
+    { intros l' -> Eq E1 E2. unfold next_err_post. cbn [lstart lpos lrest].
+      split; [exact Hinv1|split; [exact Hlt|split; [reflexivity|split; [exact Hle|split; [exact Hnonl|]]]]].
+      exists c. split; [exact Hc|split; [exact Hc10|left]].
+      destruct (unexpected_intro c (nth_error src (S pos)) Hb E10 E36 Edig Elet Eq E1 E2) as (U1 & U2 & U3).
+      split; [exact U1|split; [exact U2|split; [exact U3|reflexivity]]]. }
+    assert (Hstr : (N.eqb c 39 || N.eqb c 34)%bool = true ->
+              match lex_string c (mkLexer s' (S pos) pos) with
+              | LexTok t l' => next_tok_post src l t l'
+              | LexErr p l' => next_err_post src l p l'
+              end).
+    { intros Eq.
+      assert (Hq : c = 39%N \/ c = 34%N).
+      { apply orb_true_iff in Eq; destruct Eq as [Eq|Eq]; apply N.eqb_eq in Eq; auto. }
+      destruct (lex_string c (mkLexer s' (S pos) pos)) as [t l'|p l'] eqn:Estr.
+      - destruct (lex_string_span src c _ _ _ Hinv1 Estr) as (A & B & C & D & E).
+        cbn [lpos lstart] in *. destruct (E eq_refl) as [E3 E4].
+        destruct A as (A1 & A2 & A3 & A4 & A5 & A6). cbn [lpos] in A6.
+        unfold next_tok_post. rewrite B.
+        split; [split; [exact A1|split; [exact A2|split; [exact A3|split; [exact A4|split; lia]]]]|].
+        split; [|split; [intros _; lia|split; [discriminate|discriminate]]].
+        intros j Hj. destruct (Nat.eq_dec j pos) as [->|Hne].
+        * rewrite Hc. congruence.
+        * apply Hnonl. lia.
+      - destruct (lex_string_err src c _ _ _ Hinv1 Estr) as (A & B & C & D & E).
+        cbn [lpos lstart] in *. unfold next_err_post. subst p.
+        split; [exact C|split; [exact Hlt|split; [exact E|split; [exact Hle|split; [exact Hnonl|]]]]].
+        exists c. split; [exact Hc|split; [exact Hc10|right]].
+        split; [exact Hq|split; [exact D|]]. intros j Hj. apply B. lia. }
     destruct s' as [|d s''].
     + (* last byte of the text *)
+      assert (Hn : nth_error src (S pos) = None).
+      { rewrite <- (Nat.add_0_r (S pos)). rewrite <- nth_error_skipn. rewrite Hs'. reflexivity. }
       destruct (lookup_op1 op1_table c) as [t1|] eqn:E1.
-      * apply Hsimple; [lia|exact Hinv1|]. intros ->. split; [reflexivity|now apply op1_divide].
+      * apply Hsimple; [lia|exact Hinv1|intros ->; exact (op1_not_eof _ E1)|].
+        intros ->. split; [reflexivity|now apply op1_divide].
       * destruct (N.eqb c 39 || N.eqb c 34)%bool eqn:Eq.
-        -- (* unterminated string *)
-           unfold lex_string. simpl. unfold next_err_post. simpl.
-           split; [unfold lex_inv; simpl; rewrite Nat.add_0_r; split; [now symmetry|split; lia]|].
-           split; [lia|]. right.
-           assert (Hend : S pos = length src).
-           { assert (length (skipn (S pos) src) = 0) by (rewrite Hs'; reflexivity).
-             rewrite skipn_length in H. lia. }
-           split; [lia|split; [lia|split; [lia|split; [exact Hnonl|]]]].
-           exists c. split; [apply orb_true_iff in Eq; destruct Eq as [E|E]; apply N.eqb_eq in E; auto|].
-           split; [exact Hc|]. intros j Hj Hq.
-           assert (nth_error src j = None) by (apply nth_error_None; lia). congruence.
-        -- unfold next_err_post. cbn [lstart lpos lrest]. split; [exact Hinv1|split; [lia|left]].
-           split; [reflexivity|split; [reflexivity|split; [lia|split; [exact Hnonl|]]]].
-           exists c. split; [exact Hc|].
-           assert (Hn : nth_error src (S pos) = None).
-           { rewrite <- (Nat.add_0_r (S pos)). rewrite <- nth_error_skipn. rewrite Hs'. reflexivity. }
-           rewrite Hn. unfold unexpected_byte. unfold blank_start in Hb.
-           apply orb_false_iff in Hb. destruct Hb as [Hb Hb4].
-           apply orb_false_iff in Hb. destruct Hb as [Hb Hb3].
-           apply orb_false_iff in Hb. destruct Hb as [Hb1 Hb2].
-           apply orb_false_iff in Elet. destruct Elet as [El1 El2].
-           apply orb_false_iff in Eq. destruct Eq as [Eq1 Eq2].
-           repeat match goal with H : N.eqb _ _ = false |- _ => apply N.eqb_neq in H end.
-           repeat split; auto. discriminate.
+        -- apply Hstr. reflexivity.
+        -- apply Herr; auto. intros d Hd. congruence.
     + destruct (skipn_cons_inv _ _ _ _ Hs') as (Hd & Hs'' & Hlt').
       assert (Hinv2 : lex_inv src (mkLexer s'' (S (S pos)) pos)).
       { unfold lex_inv. simpl. split; [now symmetry|split; lia]. }
       destruct (lookup_op2 op2_table c d) as [t2|] eqn:E2.
-      * apply Hsimple; [lia|exact Hinv2|]. intros ->. exfalso. exact (op2_not_divide _ _ E2).
+      * apply Hsimple; [lia|exact Hinv2|intros ->; exact (op2_not_eof _ _ E2)|].
+        intros ->. exfalso. exact (op2_not_divide _ _ E2).
       * destruct (lookup_op1 op1_table c) as [t1|] eqn:E1.
-        -- apply Hsimple; [lia|exact Hinv1|]. intros ->. split; [reflexivity|now apply op1_divide].
+        -- apply Hsimple; [lia|exact Hinv1|intros ->; exact (op1_not_eof _ E1)|].
+           intros ->. split; [reflexivity|now apply op1_divide].
         -- destruct (N.eqb c 39 || N.eqb c 34)%bool eqn:Eq.
-           ++ destruct (lex_string c (mkLexer (d :: s'') (S pos) pos)) as [t l'|p l'] eqn:Estr.
-              ** destruct (lex_string_span src c _ _ _ Hinv1 Estr) as (A & B & C & D & E).
-                 simpl in *. destruct (E eq_refl) as [E3 E4].
-                 unfold next_tok_post. rewrite B.
-                 destruct A as (A1 & A2 & A3 & A4 & A5 & A6). simpl in *.
-                 split; [split; [exact A1|split; [exact A2|split; [exact A3|split; [exact A4|split; lia]]]]|].
-                 split; [|split; [intros _; lia|discriminate]].
-                 intros j Hj. destruct (Nat.eq_dec j pos) as [->|Hne].
-                 --- rewrite Hc. intro Hx. inversion Hx; subst. discriminate E10.
-                 --- apply Hnonl. lia.
-              ** destruct (lex_string_err src c _ _ _ Hinv1 Estr) as (A & B & C & D & E).
-                 simpl in *. unfold next_err_post.
-                 split; [exact C|split; [lia|right]]. rewrite E.
-                 split; [exact A|split; [lia|split; [exact D|split; [exact Hnonl|]]]].
-                 exists c. split; [apply orb_true_iff in Eq; destruct Eq as [Eq|Eq]; apply N.eqb_eq in Eq; auto|].
-                 split; [exact Hc|]. intros j Hj. apply B. lia.
-           ++ unfold next_err_post. cbn [lstart lpos lrest]. split; [exact Hinv1|split; [lia|left]].
-              split; [reflexivity|split; [reflexivity|split; [lia|split; [exact Hnonl|]]]].
-              exists c. split; [exact Hc|]. rewrite Hd.
-              unfold unexpected_byte. unfold blank_start in Hb.
-              apply orb_false_iff in Hb. destruct Hb as [Hb Hb4].
-              apply orb_false_iff in Hb. destruct Hb as [Hb Hb3].
-              apply orb_false_iff in Hb. destruct Hb as [Hb1 Hb2].
-              apply orb_false_iff in Elet. destruct Elet as [El1 El2].
-              apply orb_false_iff in Eq. destruct Eq as [Eq1 Eq2].
-              repeat match goal with H : N.eqb _ _ = false |- _ => apply N.eqb_neq in H end.
-              repeat split; auto. intros d0 Hd0. inversion Hd0; subst. exact E2.
+           ++ apply Hstr. reflexivity.
+           ++ apply Herr; auto. intros d0 Hd0. rewrite Hd in Hd0. inversion Hd0; subst. exact E2.
 Qed.
 
 (* ---------- the statements used by Props/C12 ---------- *)
@@ -557,35 +599,50 @@ Theorem lex_next_span_proof : forall src l t l',
   lex_inv src l' /\
   tpos t = lstart l' /\ tpos t + tlen t <= lpos l' /\ lpos l <= lpos l' /\
   (ttag t <> TEOF -> lpos l <= tpos t /\ tpos t < lpos l') /\
+  (ttag t = TEOF -> tpos t = length src) /\
   (forall j, lpos l <= j < tpos t -> nth_error src j <> Some 10%N).
 Proof.
   intros src l t l' Hinv H. generalize (lex_next_spec src l Hinv). rewrite H.
-  intros ((A1 & A2 & A3 & A4 & A5 & A6) & B & C & D).
-  split; [exact A1|split; [exact A3|split; [exact A2|split; [exact A4|split; [exact A5|split; [exact A6|split; [|exact B]]]]]]].
-  intros Hne. destruct (C Hne) as (C1 & C2 & C3). split; assumption.
+  intros ((A1 & A2 & A3 & A4 & A5 & A6) & B & C & D & E).
+  split; [exact A1|split; [exact A3|split; [exact A2|split; [exact A4|split; [exact A5|split; [exact A6|split; [|split; [|exact B]]]]]]]].
+  - intros Hne. destruct (C Hne) as (C1 & C2 & C3). split; assumption.
+  - intros He. apply E. exact He.
 Qed.
 
-Theorem lexer_error_on_char_proof : forall src l p l',
-  lex_inv src l -> lex_next l = LexErr p l' -> lstart l' = p ->
-  lpos l <= p /\ lpos l' = S p /\ lex_inv src l' /\
+(* every lexer error: the offset of a byte of the text that is not a newline *)
+Theorem lexer_error_pos_proof : forall src l p l',
+  lex_inv src l -> lex_next l = LexErr p l' ->
+  lpos l <= p /\ p < length src /\ lstart l' = p /\ lex_inv src l' /\
   (forall j, lpos l <= j < p -> nth_error src j <> Some 10%N) /\
-  exists c, nth_error src p = Some c /\ unexpected_byte c (nth_error src (S p)).
+  exists c, nth_error src p = Some c /\ c <> 10%N.
 Proof.
-  intros src l p l' Hinv H Hst. generalize (lex_next_spec src l Hinv). rewrite H.
-  intros (A & B & [(C1 & C2 & C3 & C4 & C5)|(C1 & _)]); [|lia].
-  split; [exact C3|split; [exact C2|split; [exact A|split; [exact C4|exact C5]]]].
+  intros src l p l' Hinv H. generalize (lex_next_spec src l Hinv). rewrite H.
+  intros (A & B & C & D & E & c & Hc & Hc10 & _).
+  split; [exact D|split; [exact B|split; [exact C|split; [exact A|split; [exact E|]]]]].
+  exists c. split; assumption.
 Qed.
 
-Theorem lexer_error_in_string_proof : forall src l p l',
-  lex_inv src l -> lex_next l = LexErr p l' -> lstart l' <> p ->
-  p = S (lstart l') /\ p <= length src /\ lpos l <= lstart l' /\ lpos l' = length src /\ lex_inv src l' /\
-  (forall j, lpos l <= j < lstart l' -> nth_error src j <> Some 10%N) /\
-  exists q, (q = 39%N \/ q = 34%N) /\ nth_error src (lstart l') = Some q /\
-            (forall j, p <= j -> nth_error src j <> Some q).
+Theorem lexer_error_on_char_proof : forall src l p l' c,
+  lex_inv src l -> lex_next l = LexErr p l' ->
+  nth_error src p = Some c -> c <> 39%N -> c <> 34%N ->
+  unexpected_byte c (nth_error src (S p)) /\ lpos l' = S p.
 Proof.
-  intros src l p l' Hinv H Hst. generalize (lex_next_spec src l Hinv). rewrite H.
-  intros (A & B & [(C1 & _)|(C1 & C2 & C3 & C4 & C5)]); [congruence|].
-  split; [exact C1|split; [exact B|split; [exact C2|split; [exact C3|split; [exact A|split; [exact C4|exact C5]]]]]].
+  intros src l p l' c Hinv H Hc H39 H34. generalize (lex_next_spec src l Hinv). rewrite H.
+  intros (A & B & C & D & E & c' & Hc' & Hc10 & [(U1 & U2 & U3 & U4)|([Q|Q] & _)]);
+    rewrite Hc in Hc'; inversion Hc'; subst c'; try contradiction.
+  split; assumption.
+Qed.
+
+Theorem lexer_error_in_string_proof : forall src l p l' q,
+  lex_inv src l -> lex_next l = LexErr p l' ->
+  nth_error src p = Some q -> q = 39%N \/ q = 34%N ->
+  lpos l' = length src /\ (forall j, p < j -> nth_error src j <> Some q).
+Proof.
+  intros src l p l' q Hinv H Hc Hq. generalize (lex_next_spec src l Hinv). rewrite H.
+  intros (A & B & C & D & E & c' & Hc' & Hc10 & [(U1 & U2 & _)|(_ & Q2 & Q3)]);
+    rewrite Hc in Hc'; inversion Hc'; subst c'.
+  - destruct Hq; contradiction.
+  - split; assumption.
 Qed.
 
 (* Lexer.Regex() is called by the parser right after Lexer.Next returned the '/' token *)
@@ -596,7 +653,7 @@ Theorem lexer_error_in_regex_proof : forall src l0 t l p l',
   (forall j, p < j -> nth_error src j <> Some 47%N) /\ lpos l' = length src.
 Proof.
   intros src l0 t l p l' Hinv H Ht Hre. generalize (lex_next_spec src l0 Hinv). rewrite H.
-  intros ((A1 & A2 & A3 & A4 & A5 & A6) & B & C & D).
+  intros ((A1 & A2 & A3 & A4 & A5 & A6) & B & C & D & _).
   destruct (D Ht) as [D1 D2].
   destruct (lex_regex_err src l p l' A2 Hre) as (E1 & E2 & E3 & E4 & E5).
   subst p. rewrite <- A4 in *.
